@@ -129,6 +129,157 @@ def _body(fn: ast.FunctionDef, params: list[str], fallible: bool) -> tuple[str, 
     return "\n".join(lines), fresh
 
 
+# ---- acceptance guards of on_created / on_extended (community.py) ---------------------------------------------------
+# Supported: the handlers' statement lists with `if` statements whose tests are built from and / or / not and the atoms
+#   <cache var> | <cache var> is [not] None                       -> hasCache      (cache var = RetryRequestCache lookup)
+#   <request var> | <request var> is [not] None                   -> hasRequest    (request var = CreateRequestCache lookup)
+#   <cache var>.packet_identifier ==/!= payload.identifier        -> identEq       (either operand order)
+#   <request var>.to_circuit_id ==/!= circuit_id|payload.circuit_id -> toCidEq
+# The path condition under which `self._ours_on_created_extended(...)` is reached (and, for on_created, the test of the
+# `if` that builds the RelayRoutes) is emitted as a Lean Bool function.  Anything else in a test -> TranslatorError.
+def _lookup_vars(fn: ast.FunctionDef) -> dict[str, str]:
+    """local names bound to request_cache.get/pop(RetryRequestCache|CreateRequestCache, ...)"""
+    out = {}
+    for st in ast.walk(fn):
+        if isinstance(st, ast.Assign) and len(st.targets) == 1 and isinstance(st.targets[0], ast.Name) \
+                and isinstance(st.value, ast.Call) and isinstance(st.value.func, ast.Attribute) \
+                and st.value.func.attr in ("get", "pop") and "request_cache" in ast.unparse(st.value.func.value) \
+                and st.value.args and isinstance(st.value.args[0], ast.Name):
+            kind = {"RetryRequestCache": "cache", "CreateRequestCache": "request"}.get(st.value.args[0].id)
+            if kind:
+                out.setdefault(st.targets[0].id, kind)
+    return out
+
+
+def _guard(e, vars_: dict[str, str]) -> str:
+    if isinstance(e, ast.BoolOp):
+        op = " && " if isinstance(e.op, ast.And) else " || "
+        return "(" + op.join(_guard(v, vars_) for v in e.values) + ")"
+    if isinstance(e, ast.UnaryOp) and isinstance(e.op, ast.Not):
+        return f"(!{_guard(e.operand, vars_)})"
+    has = {"cache": "hasCache", "request": "hasRequest"}
+    if isinstance(e, ast.Name) and e.id in vars_:
+        return has[vars_[e.id]]
+    if isinstance(e, ast.Compare) and len(e.ops) == 1:
+        l, r, op = e.left, e.comparators[0], e.ops[0]
+        if isinstance(l, ast.Name) and l.id in vars_ and isinstance(r, ast.Constant) and r.value is None \
+                and isinstance(op, (ast.Is, ast.IsNot)):
+            return has[vars_[l.id]] if isinstance(op, ast.IsNot) else f"(!{has[vars_[l.id]]})"
+        if isinstance(op, (ast.Eq, ast.NotEq)):
+            def norm(x):
+                u = ast.unparse(x)
+                if isinstance(x, ast.Attribute) and isinstance(x.value, ast.Name) and x.value.id in vars_:
+                    return f"<{vars_[x.value.id]}>.{x.attr}"
+                return {"payload.circuit_id": "circuit_id"}.get(u, u)
+            pair = {norm(l), norm(r)}
+            atom = {frozenset({"<cache>.packet_identifier", "payload.identifier"}): "identEq",
+                    frozenset({"<request>.to_circuit_id", "circuit_id"}): "toCidEq"}.get(frozenset(pair))
+            if atom:
+                return atom if isinstance(op, ast.Eq) else f"(!{atom})"
+    raise TranslatorError(f"unsupported guard expression: {ast.unparse(e)[:120]}")
+
+
+def _contains_call(stmts, pred) -> bool:
+    return any(isinstance(n, ast.Call) and pred(n) for st in stmts for n in ast.walk(st))
+
+
+def _path_condition(stmts, pred, vars_) -> list[str] | None:
+    """conjuncts under which a call satisfying `pred` is reached (None if it is not in `stmts`)"""
+    pre: list[str] = []
+    for st in stmts:
+        if isinstance(st, ast.If):
+            if _contains_call(st.body, pred):
+                inner = _path_condition(st.body, pred, vars_)
+                return pre + [_guard(st.test, vars_)] + (inner or [])
+            if _contains_call(st.orelse, pred):
+                inner = _path_condition(st.orelse, pred, vars_)
+                return pre + [f"(!{_guard(st.test, vars_)})"] + (inner or [])
+            if st.body and isinstance(st.body[-1], ast.Return) and not st.orelse:
+                try:
+                    pre.append(f"(!{_guard(st.test, vars_)})")
+                except TranslatorError:
+                    # an early return on something the model does not look at (none exists today)
+                    raise
+            continue
+        if _contains_call([st], pred):
+            return pre
+    return None
+
+
+def _is_ours(n: ast.Call) -> bool:
+    return isinstance(n.func, ast.Attribute) and n.func.attr == "_ours_on_created_extended"
+
+
+def _is_relayroute(n: ast.Call) -> bool:
+    return isinstance(n.func, ast.Name) and n.func.id == "RelayRoute"
+
+
+def translate_guards(ctree) -> str:
+    cls = next((n for n in ctree.body if isinstance(n, ast.ClassDef) and n.name == "TunnelCommunity"), None)
+    if cls is None:
+        raise TranslatorError("class TunnelCommunity not found")
+    fns = {n.name: n for n in cls.body if isinstance(n, (ast.FunctionDef, ast.AsyncFunctionDef))}
+    for name in ("on_created", "on_extended", "_ours_on_created_extended"):
+        if name not in fns:
+            raise TranslatorError(f"TunnelCommunity.{name} not found")
+    cr, ex = fns["on_created"], fns["on_extended"]
+    vcr, vex = _lookup_vars(cr), _lookup_vars(ex)
+    if sorted(vcr.values()) != ["cache", "request"] or list(vex.values()) != ["cache"]:
+        raise TranslatorError(f"unexpected request-cache lookups in on_created/on_extended: {vcr} / {vex}")
+    created_accepts = _path_condition(cr.body, _is_ours, vcr)
+    extended_accepts = _path_condition(ex.body, _is_ours, vex)
+    if created_accepts is None or extended_accepts is None:
+        raise TranslatorError("_ours_on_created_extended is not called from on_created / on_extended")
+    pairs = None
+    for st in cr.body:
+        if isinstance(st, ast.If) and _contains_call(st.body, _is_relayroute):
+            pairs = _guard(st.test, vcr)
+    if pairs is None:
+        raise TranslatorError("relay branch (RelayRoute construction) not found in on_created")
+    # which static key the originator binds: the arguments of the verify call in _ours_on_created_extended
+    ours = fns["_ours_on_created_extended"]
+    alias = {}
+    for st in ours.body:
+        if isinstance(st, ast.Assign) and len(st.targets) == 1 and isinstance(st.targets[0], ast.Name):
+            alias[st.targets[0].id] = ast.unparse(st.value)
+    calls = [n for n in ast.walk(ours) if isinstance(n, ast.Call) and isinstance(n.func, ast.Attribute)
+             and n.func.attr == "verify_and_generate_shared_secret"]
+    if len(calls) != 1 or len(calls[0].args) != 4 or calls[0].keywords:
+        raise TranslatorError("_ours_on_created_extended: expected one positional call of verify_and_generate_shared_secret")
+
+    def resolve(a):
+        u = ast.unparse(a)
+        for _ in range(8):                      # follow local aliases: hop -> pending_hop -> circuit.unverified_hop -> ...
+            root = u.split(".", 1)
+            if root[0] not in alias:
+                break
+            u = alias[root[0]] + ("." + root[1] if len(root) > 1 else "")
+        return u
+    got = [resolve(a) for a in calls[0].args]
+    want = ["self.circuits[circuit_id].unverified_hop.dh_secret", "payload.key", "payload.auth",
+            "self.circuits[circuit_id].unverified_hop.peer.public_key.get_crypt_pk()"]
+    if got != want:
+        raise TranslatorError(f"_ours_on_created_extended verifies with {got}; the model binds {want}")
+
+    def conj(cs):
+        return " && ".join(cs) if cs else "true"
+    return f"""
+/-! ### acceptance guards, translated from community.py (on_created / on_extended) -/
+
+/-- on_created: test of the relay branch (the CREATED completes a pending extend of this node) -/
+def genCreatedPairs (hasRequest toCidEq : Bool) : Bool :=
+  {pairs}
+
+/-- on_created: path condition under which `_ours_on_created_extended` is called -/
+def genCreatedAccepts (hasRequest toCidEq hasCache identEq : Bool) : Bool :=
+  {conj(created_accepts)}
+
+/-- on_extended: path condition under which `_ours_on_created_extended` is called -/
+def genExtendedAccepts (hasCache identEq : Bool) : Bool :=
+  {conj(extended_accepts)}
+"""
+
+
 def _class_list(tree, cls_name: str, attr: str):
     cls = next((n for n in tree.body if isinstance(n, ast.ClassDef) and n.name == cls_name), None)
     if cls is None:
@@ -190,6 +341,7 @@ def translate() -> tuple[str, dict]:
     if not (isinstance(ct, int) and isinstance(nh, int) and nh > 0):
         raise TranslatorError("circuit_timeout / next_hop_timeout are not positive integer literals")
 
+    guards = translate_guards(ctree)
     fresh = camel(gfresh[0])
     out = f"""/-
   GENERATED by tools/gen_c08.py from {SRC} — do not edit.
@@ -215,7 +367,7 @@ def genVerify [DecidableEq Tag] (C : Crypto Tag Sess Blob) (dhSecret : Key) (dhR
 
 /-- settings.circuit_timeout // settings.next_hop_timeout : tries for a new circuit -/
 def genInitialTries : Int := {ct // nh}
-
+{guards}
 end Ipv8.C08
 """
     return out, {"circuit_timeout": ct, "next_hop_timeout": nh}
